@@ -411,6 +411,17 @@ def nesting_cases(depths):
                 yield minimal_env(extra_env=[("#p", cb.Raw(laughs))]), f"shared-references/{place}^{d}"
         # a shared value that contains a reference to itself
         yield minimal_env(comps=cb.Raw(b"\xd8\x1c\x81\xd8\x1d\x00")), f"shared-references/cycle^{d}"
+    # text CONTENT that is costly for a careless pattern matcher: long runs of one class of characters followed by a character that
+    # makes the whole text fail to match (catastrophic backtracking doubles the time per character) - every text field of the language
+    patterns = [("alnum-run+underscore", lambda n: "a" * n + "_"), ("label-run+bang", lambda n: "a-" * n + "!"), ("dotted-run+underscore", lambda n: "a." * n + "_"),
+                ("blank-run+x", lambda n: " " * n + "x"), ("digit-run+x", lambda n: "0" * n + "x"), ("percent-run", lambda n: "%41" * n + "%"), ("slash-run", lambda n: "/" * n + "\\"),
+                ("newline-run", lambda n: "\n" * n + "x"), ("nonascii-run", lambda n: "\u00e9" * n + "\x00")]
+    for n in [x for x in depths if 20 <= x <= 1000]:
+        for pname, make in patterns:
+            text = make(n)
+            tmap = cb.Pairs([("en", cb.Pairs([(k, text) for k in range(1, 5)] + [([b"M"], cb.Pairs([(k, text) for k in range(1, 7)]))]))])
+            yield minimal_env(extra_env=[(23, cb.enc(tmap))]), f"text-pattern/{pname}^{n}"
+        yield minimal_env(extra_env=[("#" + "a" * n + "_", b"\x00")]), f"text-pattern/payload-name^{n}"
     for d in [x for x in depths if x <= 40]:
         e = minimal_env()
         for i in range(d):
